@@ -63,4 +63,72 @@ pub fn report(out: &mut Out) {
         }
     }
     out.extra.insert("api_coverage(derived from sharded_actor.rs by build.rs)".into(), json!(table));
+    // ---- can the routing change at run time (rebalancing, hot-shard migration)?  Source-derived:
+    // `num_shards: usize` and `shards: Arc<Vec<ShardHandle>>` are plain immutable fields, no method
+    // of ShardedActorState takes `&mut self`, nothing assigns them, and the ScalingDecision of the
+    // load balancer has no consumer (check_scaling only forwards it to the caller; no caller).
+    let mut facts: BTreeMap<String, serde_json::Value> = BTreeMap::new();
+    let field = |n: &str| STATE_FIELDS.iter().find(|(a, _)| *a == n).map(|(_, t)| t.to_string());
+    let interior = |t: &str| ["Mutex", "RwLock", "Atomic", "Cell", "ArcSwap", "Lock"].iter().any(|w| t.contains(w));
+    for (n, want) in [("num_shards", "usize"), ("shards", "Arc<Vec<ShardHandle>>")] {
+        match field(n) {
+            Some(t) if t == want && !interior(&t) => {
+                facts.insert(format!("field {}", n), json!(t));
+            }
+            other => {
+                facts.insert(format!("field {}", n), json!(format!("UNEXPECTED: {:?}", other)));
+                out.violation(
+                    &format!("C03:routing-state-mutable:field:{}", n),
+                    &format!("ShardedActorState::{} is declared as {:?}, not the immutable `{}` the model's fixed route table (Routes.N) stands for: the shard count / shard set may now change at run time, home_unique must be re-proved across such a change", n, other, want),
+                    json!({"field": n, "declared": other, "expected": want}),
+                );
+            }
+        }
+    }
+    facts.insert("methods taking &mut self".into(), json!(STATE_MUT_SELF_FNS));
+    for f in STATE_MUT_SELF_FNS {
+        out.violation(&format!("C03:routing-state-mutable:mut-self:{}", f), &format!("ShardedActorState::{} takes &mut self: the routing state can be changed after construction", f), json!({"fn": f}));
+    }
+    facts.insert("assignments to num_shards / in-place mutation of shards".into(), json!(ROUTING_STATE_MUTATIONS));
+    for a in ROUTING_STATE_MUTATIONS {
+        out.violation("C03:routing-state-mutable:assignment", &format!("the routing state is modified after construction: {}", a), json!({"site": a}));
+    }
+    facts.insert("consumers of ScalingDecision outside load_balancer.rs / adaptive_actor.rs (non-test code)".into(), json!(SCALING_DECISION_CONSUMERS));
+    for c in SCALING_DECISION_CONSUMERS {
+        out.violation("C03:scaling-decision-applied", &format!("a ScalingDecision of the load balancer is now consumed by non-test code ({}): if it changes the shard set, keys must be migrated and home_unique re-proved across the change", c), json!({"site": c}));
+    }
+    out.extra.insert("routing_state_immutable(derived from the crate source by build.rs)".into(), json!(facts));
+    // ---- the dispatch layer: the source-derived tables against the model's (`Model/Dispatch.lean`):
+    // ENTRYPOINTS = the pub fns of ShardedActorState that reach a shard mailbox; DISPATCH = the ones
+    // the connection handler calls.  The model answers with ITS tables; a new entry point / a new
+    // call site shows as a disagreement on these two lines and as a named violation here.
+    const MODEL_ENTRY_POINTS: [&str; 8] = ["evict_expired_all_shards", "execute", "fast_batch_get_pipeline", "fast_batch_set_pipeline", "fast_get", "fast_set", "pooled_fast_get", "pooled_fast_set"];
+    let mut mailbox: Vec<&str> = MAILBOX_REACHING_FNS.to_vec();
+    mailbox.sort();
+    mailbox.dedup();
+    out.op("ENTRYPOINTS".into(), mailbox.join(","));
+    for f in &mailbox {
+        if !MODEL_ENTRY_POINTS.contains(f) {
+            out.violation(&format!("C03:dispatch:entry-point-not-modelled:{}", f), &format!("ShardedActorState::{} reaches a shard mailbox (its body uses self.shards) but is not an entry point of the model (Shards.EntryPoint): requests carried by it are outside entry_routes_home / entry_refines", f), json!({"fn": f}));
+        }
+    }
+    let mut conn: Vec<&str> = STATE_CALL_SITES.iter().filter(|(f, site)| site.starts_with("connection_optimized.rs") && mailbox.contains(f)).map(|(f, _)| *f).collect();
+    conn.sort();
+    conn.dedup();
+    out.op("DISPATCH".into(), conn.join(","));
+    let mut sites: BTreeMap<String, Vec<String>> = BTreeMap::new();
+    for (f, site) in STATE_CALL_SITES {
+        if mailbox.contains(f) {
+            sites.entry(f.to_string()).or_default().push(site.to_string());
+        }
+    }
+    for (f, at) in &sites {
+        for site in at {
+            let known = site.starts_with("connection_optimized.rs") || (site.starts_with("ttl_manager.rs") && f == "evict_expired_all_shards");
+            if !known {
+                out.violation(&format!("C03:dispatch:call-site-not-modelled:{}", f), &format!("{} calls ShardedActorState::{} — a caller the dispatch model (connection handler, TTL manager) does not know", site, f), json!({"fn": f, "site": site}));
+            }
+        }
+    }
+    out.extra.insert("dispatch_call_sites(entry point → call sites in src/production, derived from the source)".into(), json!(sites));
 }
